@@ -705,10 +705,6 @@ func c13RandCfg(r *rand.Rand, maxN int) c13Cfg {
 		c.Kind[j-1], c.Ident[j-1], c.Loc[j-1], c.Fok[j-1] = c.Kind[i-1], false, c.Loc[i-1], c.Fok[i-1]
 		c.Links[j-1] = append([]int{}, c.Links[i-1]...)
 	}
-	c.Cached = r.Intn(5) == 0
-	if c.Cached && r.Intn(2) == 0 { // a memoising fetcher shows when nodes are fetched again: no tracker
-		c.Trk = "none"
-	}
 	nr := 1 + r.Intn(3)
 	if c.Trk == "none" {
 		nr = 1 + r.Intn(2)
@@ -824,6 +820,15 @@ func c13Record(t *testing.T) {
 	nWalk = vEnvInt("C13_NWALK", nWalk)
 	for k := 0; k < nWalk; k++ {
 		cfg := c13RandCfg(r, 60)
+		if k%6 == 5 { // every sixth run uses a memoising fetcher and re-fetches nodes (no tracker: keep the DAG small)
+			cfg = c13RandCfg(r, 12)
+			cfg.Cached, cfg.Trk = true, "none"
+			if len(cfg.Roots) > 2 {
+				cfg.Roots = cfg.Roots[:2]
+			}
+		} else {
+			cfg.Cached = false
+		}
 		var w *c13World
 		if c13Realizable(cfg) && k%5 != 4 {
 			w = c13Real(cfg, k)
